@@ -1,5 +1,5 @@
 #!/usr/bin/env python3
-"""idempotent: adds / refreshes the open finding F-C18-10 in /verif/known_findings.json (load - modify - write)"""
+"""idempotent: adds / refreshes the open findings F-C18-10 and F-C18-11 in /verif/known_findings.json (load - modify - write)"""
 import json, os
 P = "/verif/known_findings.json"
 NEW = [
@@ -26,6 +26,27 @@ NEW = [
   "fix_candidate": "selftest/fixes/c18-float-filter-drops-nan.diff (the eight float order filters of lib/binaryfilterfunc keep a row "
                    "only if the comparison itself holds: `if !(values[i] > cmpData)`; template and generated file; go test "
                    "./lib/binaryfilterfunc/ ./engine/... pass, tools/fixcheck.py lost: 0; with it the check no longer re-observes the finding)"},
+ {"id": "F-C18-11", "property": "C18", "status": "open",
+  "deviation": "minmax_sentinel_leaks",
+  "dev": "minmax_sentinel_leaks",
+  "what": "min / max aggregations that the executor evaluates by hash aggregation - the operand is an arithmetic or comparison "
+          "expression or another aggregation over instant selectors: min by (job) (m * 2), max(m != 3), max(sum without (inst) (m)) - "
+          "answer +1.7976931348623157e308 (min) / -1.7976931348623157e308 (max) for a group whose elements are all NaN (Prometheus: "
+          "NaN). engine/executor/hash_agg_func_prom.go minPromOperator / maxPromOperator start from +-math.MaxFloat64 instead of the "
+          "first element of the group: `if vs[i] < s.val || math.IsNaN(s.val)` never replaces the start value when every element is "
+          "NaN (the same start value answers for a group of +Inf under min and of -Inf under max). A silently wrong, absurdly large "
+          "finite number where Prometheus says NaN; instant and range queries alike. min / max directly over a selector or over a "
+          "range function (evaluated by the store-side reducers) are right.",
+  "predicate": "the expression contains min / max whose operand is a binary expression or an aggregation all of whose leaves are "
+               "instant selectors, and at the evaluation time a group of that aggregation has NaN elements only",
+  "signature": "answer == Eval with +-MaxFloat64 for the all-NaN groups of such an aggregation (PromSem.tla AggVal sentinel / "
+               "HashAggPath, Dev minmax_sentinel_leaks), exactly; the sentinel is only ever predicted as an answer (expressions in "
+               "which it would flow into a further operator are not generated)",
+  "reproduction": "remote write m{job=a}: (t0, NaN 0x7FF8000000000001), m{job=b}: (t0, 5); GET /api/v1/query?query=max by (job) (m * 1)"
+                  "&time=t0 returns {job=a} -1.7976931348623157e+308 (Prometheus: NaN), min by (job) (m * 1) returns "
+                  "+1.7976931348623157e+308; max by (job) (m) returns NaN (right)",
+  "fix_candidate": "selftest/fixes/c18-minmax-agg-first-value.diff (the first element of a group replaces the start value; go test "
+                   "./engine/executor/ passes, tools/fixcheck.py lost: 0; with it the check no longer re-observes the finding)"},
 ]
 d = json.load(open(P))
 ids = {f["id"]: n for n, f in enumerate(d["findings"])}
